@@ -10,6 +10,8 @@ import PocketModel.Ledger.Caches
   (`Caches.getApp` with the probed context flavour, LRU order and eviction included) — DIFF;
   (b) verified runtime monitor: the dumped cache must be coherent with the dumped working store
   (`Caches.Coherent`, the invariant of `C13.caches_coherent`) — PROPFAIL `appcache-incoherent`.
+* `coh` / `act` lines also carry the REAL validators-by-chain cache and the store's answers:
+  `Caches.VbcCoherent` evaluated on them — PROPFAIL `vbccache-incoherent`.
 * `B blk h … => …` must equal A's line — PROPFAIL `<kind>-changes-consensus`.
 -/
 open Caches
@@ -21,6 +23,7 @@ structure St where
   bcount : Nat := 0
   reported : Bool := false
   incoherent : Bool := false
+  vbcBad : Bool := false
 
 def field (ws : List String) (name : String) : Option String :=
   (ws.find? (·.startsWith (name ++ "="))).map (fun w => (w.drop (name.length + 1)).toString)
@@ -56,7 +59,18 @@ def checkTransition (q : QueryCtx) (post : List String) : Option Verdict := do
   let want := modelQuery q cap pre key (if ver = "-" then none else some ver)
   return if want = pst then .ok else .diff s!"ApplicationCache transition: model {renderItems want} impl {renderItems pst} (pre {renderItems pre}, key {key}, ver {ver}, cap {cap})"
 
-def step (st : St) (pre post : List String) : St × Verdict :=
+/-- `Caches.VbcCoherent` on dumps: every validators-by-chain entry (height/chain ↦ list digest) equals
+the store's answer for exactly that height and chain id. -/
+def vbcVerdict (st : St) (where_ : String) (post : List String) : Option (St × Verdict) :=
+  match field post "vbc" >>= parseItems, field post "vbcstore" >>= parseItems with
+  | some c, some s =>
+    if coherentB c s || st.vbcBad then none
+    else
+      let bad := c.filter fun e => (s.find? (·.1 = e.1)).map (·.2) ≠ some e.2
+      some ({ st with vbcBad := true }, .propfail "vbccache-incoherent" s!"{where_}: validators-by-chain cache entries {renderItems bad} differ from the store's answers {renderItems (s.filter fun e => bad.any (·.1 = e.1))}")
+  | _, _ => none
+
+def stepCore (st : St) (pre post : List String) : St × Verdict :=
   match pre with
   | ["mode", m] =>
     let q : Option QueryCtx := if m = "asis" then some .asis else if m = "fixed" then some .fixed else none
@@ -66,7 +80,7 @@ def step (st : St) (pre post : List String) : St × Verdict :=
       match checkTransition q post with
       | some v => ({ st with q := some q }, v)
       | none => (st, .bad "probe fields")
-  | "hist" :: _ :: kind :: _ => ({ st with kind := kind, ablk := [], bcount := 0, reported := false, incoherent := false }, .ok)
+  | "hist" :: _ :: kind :: _ => ({ st with kind := kind, ablk := [], bcount := 0, reported := false, incoherent := false, vbcBad := false }, .ok)
   | ["crash", _, role] =>
     if role = "B" then ({ st with reported := true }, .propfail (sigOf st.kind) s!"twin B crashed or hung: {" ".intercalate (post.take 30)}")
     else (st, .diff s!"twin A crashed: {" ".intercalate (post.take 30)}")
@@ -109,5 +123,15 @@ def step (st : St) (pre post : List String) : St × Verdict :=
     if st.bcount = st.ablk.length || st.reported then (st, .ok)
     else (st, .diff s!"twin block counts differ: A={st.ablk.length} B={st.bcount}")
   | _ => (st, .bad "op")
+
+/-- the line's own verdict first; when that is OK, the validators-by-chain monitor -/
+def step (st : St) (pre post : List String) : St × Verdict :=
+  let r := stepCore st pre post
+  match r.2 with
+  | .ok =>
+    match pre with
+    | _ :: "coh" :: _ | "B" :: "act" :: _ => (vbcVerdict r.1 (" ".intercalate (pre.take 5)) post).getD r
+    | _ => r
+  | _ => r
 
 def main : IO Unit := Proto.run ({} : St) step
